@@ -95,9 +95,6 @@ func (s *sim) precond(a Action) error {
 		default:
 			return fmt.Errorf("unknown section")
 		}
-		if s.cacheChain {
-			return fmt.Errorf("not a cache file the program made")
-		}
 		if _, err := os.Stat(s.cachePath); err != nil {
 			return fmt.Errorf("no cache file")
 		}
